@@ -2,6 +2,8 @@ package main
 
 // targetFile maps a generated definition to the Gen file that holds it (default GenFuncs).
 var targetFile = map[string]string{
+	"isWritingArgument":  "GenFrame",
+	"isReadingArgument":  "GenFrame",
 	"GetSystemErrorCode": "GenRetry",
 	"getErrCode":         "GenRetry",
 	"CanRetry":           "GenRetry",
@@ -141,4 +143,7 @@ var targets = []Target{
 	{Func: "ChannelOptions.validateIdleCheck", Out: "idleCheckOk", Params: "(interval : Z) (maxIdle : Z)", Ret: "bool",
 		Hints: map[string]string{"o.IdleCheckInterval": "interval", "o.MaxIdleTime": "maxIdle",
 			"errMaxIdleTimeNotSet": "false", "nil": "true"}},
+	// fragmenting_writer.go / fragmenting_reader.go: state predicates used by every operation
+	{Func: "fragmentingWriterState.isWritingArgument", Out: "isWritingArgument", Params: "(s : Z)", Ret: "bool"},
+	{Func: "fragmentingReadState.isReadingArgument", Out: "isReadingArgument", Params: "(s : Z)", Ret: "bool"},
 }
